@@ -32,10 +32,23 @@ def accessor_names(h):
     return out
 
 
+def unordered(K):
+    """containers built by ed / fromJson from a document that lists the bins in another order than the constructor
+    would (outside the wf `centres / thresholds increasing` of the proved contracts)"""
+    c = lambda e: hg.Count.ed(e)
+    if K == "CentrallyBin":
+        return [hg.CentrallyBin.ed(6.0, [(2.5, c(1.0)), (0.0, c(2.0)), (1.0, c(3.0))], c(0.0))]
+    if K == "IrregularlyBin":
+        return [hg.IrregularlyBin.ed(6.0, [(H.NINF if hasattr(H, "NINF") else float("-inf"), c(1.0)), (2.5, c(2.0)), (1.0, c(3.0))], c(0.0))]
+    if K == "Stack":
+        return [hg.Stack.ed(6.0, [(float("-inf"), c(6.0)), (2.5, c(2.0)), (1.0, c(3.0))], c(0.0))]
+    return []
+
+
 def chk_accessors(K):
     data = [H.datum(0.5, c="a"), H.datum(1.5, c="b"), H.datum(H.NAN, c=None), H.datum(2.5, c="a")]
-    for ck in H.child_kinds(K):
-        h = H.fill_all(H.make(K, ck), data)
+    insts = [(ck, H.fill_all(H.make(K, ck), data)) for ck in H.child_kinds(K)] + [("reloaded, bins not in increasing order", h) for h in unordered(K)]
+    for ck, h in insts:
         before = H.js(h)
         for name in accessor_names(h):
             static = inspect.getattr_static(type(h), name)
